@@ -103,6 +103,13 @@ def applyPrimary (now : Timestamp) (p : Primary) : Primary :=
   { p with ts := if p.ts.time == 0 then now else p.ts,
            lifetime := if p.lifetime == 0 then 3600000 else p.lifetime }
 
+/-- `if as_source: self._apply_primary(ctr)` — `none` = `as_source=False` (a forwarded bundle, or a
+    fragment re-entering `send_bundle`: the primary block is sent as it is, fix eb817bd) -/
+def applyOpt (now : Option Timestamp) (p : Primary) : Primary :=
+  match now with
+  | some t => applyPrimary t p
+  | none => p
+
 /-- `ctr.block_num(1)` -/
 def payloadBlk (bs : List Blk) : Option Blk := bs.find? (fun x => x.c.blockNum == 1)
 
@@ -179,10 +186,9 @@ structure Cfg where
   crcFn : Nat → Bytes → Bytes
   /-- the BPSec transmit steps (orders 10, 11) as one function on the reloaded container -/
   secStep : FBundle → FBundle
-  /-- what `Timestamper()` returns for the original request -/
-  now : Timestamp
-  /-- what it would return at a fragment's re-entry (only used if the time is still 0) -/
-  nowRe : Timestamp
+  /-- the request: `some t` = `send_bundle(ctr)` as source, `Timestamper()` would return `t`;
+      `none` = `send_bundle(ctr, as_source=False)` (forwarding) -/
+  now : Option Timestamp
   /-- static routing finds a route with a bound CL for the fragments -/
   reroute : Bool
 
@@ -204,10 +210,10 @@ structure SendRes where
   deriving Repr, DecidableEq
 
 /-- `Agent.send_bundle` for a container that has a route (MTU `mtu`) and a sender. -/
-def sendBundle (cfg : Cfg) (now : Timestamp) (mtu : Option Nat) (b : FBundle) : SendRes :=
+def sendBundle (cfg : Cfg) (now : Option Timestamp) (mtu : Option Nat) (b : FBundle) : SendRes :=
   if !numsOk b || !crcTypesOk b then ⟨true, none, []⟩
   else
-    let b1 := fillFields { b with primary := applyPrimary now b.primary }
+    let b1 := fillFields { b with primary := applyOpt now b.primary }
     let b2 := cfg.secStep b1
     match create mtu b2 with
     | .skip => ⟨false, some (finalize cfg b2), []⟩
@@ -215,10 +221,10 @@ def sendBundle (cfg : Cfg) (now : Timestamp) (mtu : Option Nat) (b : FBundle) : 
     | .raised fs true => ⟨true, none, fs⟩                  -- no sender: RuntimeError, nothing sent
     | .raised fs false => ⟨false, some (finalize cfg b2), fs⟩
 
-/-- the idle callback `send_bundle(fctr)`: routed by the table (the MTU found is immaterial for
+/-- the idle callback `send_bundle(fctr, False)`: routed by the table (the MTU found is immaterial for
     a bundle that already is a fragment, it is passed for completeness) -/
 def resend (cfg : Cfg) (mtu : Option Nat) (f : FBundle) : List Bytes :=
-  if cfg.reroute then (sendBundle cfg cfg.nowRe mtu f).direct.toList else []
+  if cfg.reroute then (sendBundle cfg none mtu f).direct.toList else []
 
 /-- Every byte string handed to the CL for one send request, in order. -/
 def clOutputs (cfg : Cfg) (mtu : Option Nat) (b : FBundle) : List Bytes :=
